@@ -35,9 +35,26 @@ def main(argv=None):
                                    src=a.src or SRC,
                                    write_evidence=not a.no_evidence,
                                    rule_filter=a.rule)
-        if rc == 0 and tier == 'thorough' and not a.rule:
-            from . import selftest
+        if rc == 0 and tier == 'thorough' and not a.rule and not a.src:
+            # the checker checks itself on scratch copies of the current
+            # tree: breaker variants / benign twins, the kept seeded
+            # changes of this property, behaviour-preserving rewrites
+            from . import equiv, seeded, selftest
             rc = selftest.run(a.property, seed=seed)
+            if rc == 0:
+                bad, n, sk = seeded.run_for(a.property)
+                if bad:
+                    print('ANALYSIS-ERROR property=%s a kept seeded change '
+                          'is no longer reported' % a.property)
+                    rc = 2
+            if rc == 0:
+                bad, n = equiv.run(props=[a.property],
+                                   evidence_for=a.property)
+                if bad:
+                    print('ANALYSIS-ERROR property=%s the check is not '
+                          'stable under behaviour-preserving rewrites' %
+                          a.property)
+                    rc = 2
         return rc
     if a.cmd == 'replay':
         with open(a.path) as f:
